@@ -6,8 +6,9 @@ import Mathlib.Data.List.Rotate
 import Mathlib.Data.List.Perm.Basic
 import ScadVerif.Model.Dim3
 import ScadVerif.Spec.Mesh
+import ScadVerif.Lemmas.TriLemmas
 namespace ScadVerif.MeshLemmas
-open ScadVerif ScadVerif.Spec ScadVerif.Dim3 ScadVerif.Dim3.Polyhedron
+open ScadVerif ScadVerif.Spec ScadVerif.Dim3 ScadVerif.Dim3.Polyhedron ScadVerif.Tri ScadVerif.TriLemmas
 
 abbrev Edge := Nat × Nat
 
@@ -412,5 +413,202 @@ theorem openSweep_closed (n k : Nat) (capStart capEnd dS dE : List Edge)
   simp only [List.map_append, List.count_append, count_map_swap, Prod.swap_swap] at h1 h2 s1 s2 e1 e2 ⊢
   omega
 
+
+/-! ### boundaries of polygons and of complete triangulation runs -/
+theorem chainE_range' : ∀ (k s : Nat), chainE (List.range' s (k + 1)) = (List.range' s k).map fun i => (i, i + 1)
+  | 0, s => by simp [chainE, List.range']
+  | k + 1, s => by
+    have ih := chainE_range' k (s + 1)
+    simp only [List.range'_succ] at ih ⊢
+    simp only [chainE, List.map_cons]
+    rw [ih]
+
+/-- the boundary of the polygon `0, 1, …, n-1` is ring 0 -/
+theorem ringE_range (n : Nat) (hn : 1 ≤ n) : ringE (List.range n) = ringF n 0 := by
+  obtain ⟨k, rfl⟩ : ∃ k, n = k + 1 := ⟨n - 1, by omega⟩
+  unfold ringE ringF
+  rw [List.range_eq_range', chainE_range']
+  simp only [List.length_range', Nat.add_sub_cancel, Nat.zero_mul, Nat.zero_add]
+  have h1 : (List.range' 0 (k + 1)).getD k 0 = k := by simp [List.getD_eq_getElem?_getD]
+  have h2 : (List.range' 0 (k + 1)).getD 0 0 = 0 := by simp [List.getD_eq_getElem?_getD, List.range'_succ]
+  rw [h1, h2, ← List.range_eq_range', ← List.range_eq_range', List.range_succ, List.map_append]
+  congr 1
+  · apply List.map_congr_left
+    intro i hi
+    simp only [List.mem_range] at hi
+    rw [Nat.mod_eq_of_lt (by omega)]
+  · simp
+
+theorem chainE_append_singleton : ∀ (l : List Nat) (x : Nat), l ≠ [] →
+    chainE (l ++ [x]) = chainE l ++ [(l.getD (l.length - 1) 0, x)]
+  | [], _, h => absurd rfl h
+  | [a], x, _ => by simp [chainE]
+  | a :: b :: rest, x, _ => by
+    have ih := chainE_append_singleton (b :: rest) x (by simp)
+    simp only [List.cons_append, chainE] at ih ⊢
+    rw [ih]
+    simp
+
+theorem getD_reverse_last (l : List Nat) (h : l ≠ []) : l.reverse.getD (l.reverse.length - 1) 0 = l.getD 0 0 := by
+  cases l with
+  | nil => exact absurd rfl h
+  | cons a t => simp [List.getD_eq_getElem?_getD]
+theorem getD_reverse_zero (l : List Nat) (h : l ≠ []) : l.reverse.getD 0 0 = l.getD (l.length - 1) 0 := by
+  have hl : 0 < l.length := List.length_pos_iff.mpr h
+  simp only [List.getD_eq_getElem?_getD]
+  rw [List.getElem?_reverse (by simpa using hl)]
+  simp
+
+theorem swap_beq (a b : Nat) (x : Edge) : ((b, a) == x) = ((a, b) == x.swap) := by
+  cases x; simp [Prod.swap, eq_comm, and_comm]
+
+theorem chainE_reverse_count (l : List Nat) (x : Edge) : (chainE l.reverse).count x = (chainE l).count x.swap := by
+  induction l with
+  | nil => simp [chainE]
+  | cons a t ih =>
+    cases t with
+    | nil => simp [chainE]
+    | cons b r =>
+      rw [List.reverse_cons, chainE_append_singleton _ _ (by simp), getD_reverse_last _ (by simp)]
+      simp only [chainE, List.getD_cons_zero, List.count_append, List.count_cons, List.count_nil, ih,
+        swap_beq a b x]
+      omega
+
+/-- reversing a polygon reverses its boundary -/
+theorem ringE_reverse_count (l : List Nat) (hl : l ≠ []) (x : Edge) :
+    (ringE l.reverse).count x = (ringE l).count x.swap := by
+  unfold ringE
+  rw [getD_reverse_last l hl, getD_reverse_zero l hl]
+  simp only [List.count_append, List.count_cons, List.count_nil, chainE_reverse_count,
+    swap_beq (l.getD (l.length - 1) 0) (l.getD 0 0) x]
+
+
+/-! ### caps produced by complete triangulation runs -/
+section Caps
+set_option linter.unusedSectionVars false
+variable {α : Type} [Add α] [Sub α] [Mul α] [Div α] [Neg α] [OfNat α 0] [OfNat α 1] [Cmp α]
+
+theorem lab_indexed (vs : List (Pt2 α)) : lab (indexed vs) = List.range vs.length := by
+  unfold lab indexed
+  rw [List.map_fst_zip]; simp
+
+def shift (off : Nat) (e : Edge) : Edge := (e.1 + off, e.2 + off)
+
+theorem triFaces_labels (off : Nat) : ∀ ts : List (Tri3 α),
+    allEdges (triFaces off (labels ts)) = (runEdges ts).map (shift off)
+  | [] => by simp [labels, triFaces, allEdges, runEdges]
+  | t :: ts => by
+    have ih := triFaces_labels off ts
+    simp only [labels, List.flatMap_cons, triLabels, List.cons_append, List.nil_append, triFaces, allEdges,
+      runEdges, triEdges, List.map_append, List.map_cons, List.map_nil, faceEdges_tri, shift] at ih ⊢
+    rw [ih]
+
+theorem ringF_shift (n r : Nat) : (ringF n r).map (shift n) = ringF n (r + 1) := by
+  simp only [ringF, List.map_map]
+  apply List.map_congr_left
+  intro i _
+  simp only [Function.comp, shift, Nat.succ_mul]
+  apply Prod.ext <;> (simp only []; omega)
+
+theorem shift_swap (k : Nat) (l : List Edge) : (l.map (shift k)).map Prod.swap = (l.map Prod.swap).map (shift k) := by
+  simp [List.map_map, Function.comp_def, shift]
+
+theorem edgeClosed_shift (k : Nat) (es : List Edge) (h : EdgeClosed es) : EdgeClosed (es.map (shift k)) := by
+  unfold EdgeClosed at h ⊢
+  rw [shift_swap]; exact h.map _
+
+/-- a complete run (n-2 triangles) leaves two vertices -/
+theorem complete_residual (poly : Poly α) (ccw : Bool) (hn : 2 ≤ poly.length)
+    (hc : (clip poly.length poly ccw []).length = 3 * (poly.length - 2)) :
+    (clipRun poly.length poly ccw []).2.length = 2 := by
+  have h1 := clip_eq poly.length poly ccw ([] : List (Tri3 α))
+  simp only [labels, List.flatMap_nil] at h1
+  have h2 := clipRun_count poly.length poly ccw ([] : List (Tri3 α))
+  have h3 := clipRun_residual_ge poly.length poly ccw ([] : List (Tri3 α)) hn
+  have hl : (clip poly.length poly ccw []).length = 3 * (clipRun poly.length poly ccw []).1.length := by
+    rw [h1]
+    induction (clipRun poly.length poly ccw []).1 with
+    | nil => rfl
+    | cons t ts ih => simp [labels, triLabels] at ih ⊢; omega
+  simp only [List.length_nil, Nat.zero_add] at h2
+  omega
+
+/-- **top cap**: a complete `triangulate2d` run, offset to ring 1, has ring 1 (forwards) as its
+boundary -/
+theorem cap_forward (vs : List (Pt2 α)) (off : Nat) (hn : 2 ≤ vs.length)
+    (hc : (triangulate (indexed vs)).length = 3 * (vs.length - 2)) :
+    EdgeClosed (allEdges (triFaces off (triangulate (indexed vs))) ++
+      ((ringF vs.length 0).map (shift off)).map Prod.swap) := by
+  have hlen : (indexed vs).length = vs.length := by simp [indexed]
+  have hres := complete_residual (indexed vs) (refCcw (indexed vs)) (by omega)
+    (by simpa [triangulate, hlen] using hc)
+  have hb := complete_run_boundary (indexed vs).length (indexed vs) (refCcw (indexed vs)) hres
+  have he := clip_eq (indexed vs).length (indexed vs) (refCcw (indexed vs)) ([] : List (Tri3 α))
+  simp only [labels, List.flatMap_nil] at he
+  unfold triangulate
+  rw [he]
+  have := triFaces_labels (α := α) off (clipRun (indexed vs).length (indexed vs) (refCcw (indexed vs)) []).1
+  simp only [labels] at this
+  rw [this, lab_indexed, ringE_range _ (by omega)] at *
+  have hs := edgeClosed_shift off _ hb
+  rw [List.map_append] at hs
+  rw [shift_swap]
+  exact hs
+
+/-- **bottom cap**: a complete `triangulate2d_rev` run has ring 0 *backwards* as its boundary -/
+theorem cap_backward (vs : List (Pt2 α)) (hn : 2 ≤ vs.length)
+    (hc : (triangulate (indexed vs).reverse).length = 3 * (vs.length - 2)) :
+    EdgeClosed (allEdges (triFaces 0 (triangulate (indexed vs).reverse)) ++ ringF vs.length 0) := by
+  have hlen : (indexed vs).reverse.length = vs.length := by simp [indexed]
+  have hres := complete_residual (indexed vs).reverse (refCcw (indexed vs).reverse) (by rw [hlen]; exact hn)
+    (by rw [hlen]; simpa [triangulate, hlen] using hc)
+  have hb := complete_run_boundary (indexed vs).reverse.length (indexed vs).reverse
+    (refCcw (indexed vs).reverse) hres
+  have he := clip_eq (indexed vs).reverse.length (indexed vs).reverse (refCcw (indexed vs).reverse)
+    ([] : List (Tri3 α))
+  simp only [labels, List.flatMap_nil] at he
+  unfold triangulate
+  rw [he]
+  have := triFaces_labels (α := α) 0
+    (clipRun (indexed vs).reverse.length (indexed vs).reverse (refCcw (indexed vs).reverse) []).1
+  simp only [labels] at this ⊢
+  rw [this]
+  have hlab : lab (indexed vs).reverse = (List.range vs.length).reverse := by
+    rw [← lab_indexed vs]; simp [lab]
+  have hne : List.range vs.length ≠ [] := by
+    intro h; have := congrArg List.length h; rw [List.length_range, List.length_nil] at this; omega
+  unfold RevClosed at hb
+  unfold EdgeClosed
+  rw [List.perm_iff_count] at hb ⊢
+  intro x
+  have h1 := hb x
+  have hr1 := ringE_reverse_count (List.range vs.length) hne x
+  have hr2 := ringE_reverse_count (List.range vs.length) hne x.swap
+  rw [ringE_range _ (by omega)] at hr1 hr2
+  have hshift : ∀ l : List Edge, l.map (shift 0) = l := by
+    intro l
+    conv_rhs => rw [← List.map_id l]
+    apply List.map_congr_left
+    intro e _
+    cases e; simp [shift]
+  simp only [hlab, List.map_append, List.count_append, TriLemmas.count_map_swap, Prod.swap_swap, hshift] at h1 hr1 hr2 ⊢
+  omega
+
+/-- gluing with caps given by their boundaries -/
+theorem capped_strip_closed' (n lo hi : Nat) (capLo capHi : List Edge)
+    (hlo : EdgeClosed (capLo ++ ringF n lo)) (hhi : EdgeClosed (capHi ++ (ringF n hi).map Prod.swap)) :
+    EdgeClosed (capLo ++ capHi ++ allEdges (strip n lo hi)) := by
+  have hs := strip_edges n lo hi
+  unfold EdgeClosed at hlo hhi ⊢
+  rw [List.perm_iff_count] at hlo hhi ⊢
+  intro x
+  have a1 := hlo x
+  have b1 := hhi x
+  have s1 := hs.count_eq x
+  have s2 := hs.count_eq x.swap
+  simp only [List.map_append, List.count_append, count_map_swap, Prod.swap_swap] at a1 b1 s1 s2 ⊢
+  omega
+
+end Caps
 
 end ScadVerif.MeshLemmas
